@@ -372,6 +372,63 @@ def r9(ctx, r):
                      "to the caller nor closed, so a session attributable to this call stays open" % (last(fname), ret.line), okdesc="error return at line %s only when the last attempt failed" % ret.line)
 
 
+def r10(ctx, r):
+    """The waiter that timed out leaves its pendingConnects entry behind so that the onClose caused by its own close(sid) is
+    swallowed.  That only works if nothing removes the entry in between: the onConnect callback — the one other place that
+    erases entries — must be able to tell a parked waiter from one that has given up, through a mark the timeout path sets
+    under syncMutex before it releases the lock."""
+    from ..finite import dominating_facts
+    f, la = _cs(ctx), c03._la(ctx)
+    lams = c03.lambdas(ctx)
+    closes = _engine_call(f, "close")
+    if len(closes) != 1:
+        raise AnalysisBroken("connectSync: %d engine->close sites" % len(closes))
+    tclose = closes[0]
+    # the protocol this rule knows: connectSync itself does not erase the entry on the timeout path
+    own_erases = [e for e in common.member_calls_on(f, IMPL + "::pendingConnects", ("erase",)) if search(f, e, lambda x: x is tclose, eh=False) is not None or search(f, tclose, lambda x, e=e: x is e, eh=False) is not None]
+    if own_erases:
+        raise AnalysisBroken("connectSync erases pendingConnects around its timeout close: a protocol this rule does not know")
+    lam = lams["onConnect"]
+    erases = common.member_calls_on(lam, IMPL + "::pendingConnects", ("erase",))
+    if not erases:
+        raise AnalysisBroken("onConnect: pendingConnects.erase not found")
+    # marks: SyncConnectOp fields written in connectSync under syncMutex on the way to the timeout close (dominating it)
+    marks = set()
+    for fld in ctx.fb().record(SCO)["fields"]:
+        name = SCO + "::" + fld["n"]
+        for (e, n, k) in common.field_writes(f, name):
+            if elem_dominates(f, e, tclose) and SYNC in la.mutexes(f, e):
+                marks.add(name)
+    for e in erases:
+        r.instance()
+        tested = set()
+        for (c, t) in dominating_facts(lam, e):
+            for n in walk(c):
+                if n.get("k") == "member" and n["n"].startswith(SCO + "::"):
+                    tested.add(n["n"])
+        guard = tested & marks
+        if tested and not guard and not marks:
+            detail = "the erase is guarded by %s but connectSync's timeout path sets no SyncConnectOp field under syncMutex before it releases the lock" % ", ".join(sorted(short(x) for x in tested))
+        elif tested and not guard:
+            detail = "the erase tests %s, the timeout path marks %s" % (", ".join(sorted(short(x) for x in tested)), ", ".join(sorted(short(x) for x in marks)))
+        else:
+            detail = "the erase is unconditional once the entry is found"
+        r.expect(bool(guard), lam, e, "late onConnect erases a timed-out waiter's entry",
+                 "connectSync's timeout path keeps pendingConnects[sid] so that the onClose caused by its own close(sid) is swallowed, but a connect that completes after the waiter gave up "
+                 "(before the Close command is processed) reaches this erase — %s: the following onClose finds no entry and fires the GLOBAL onClose (observers, tombstone) for an id connectSync never returned" % detail,
+                 okdesc="erase only for a waiter not marked %s" % ", ".join(sorted(short(x) for x in guard)))
+        if guard:
+            # the completion (done/result) must be behind the same test: an abandoned waiter is not completed with ok(sid)
+            for name in (SCO + "::done", SCO + "::result"):
+                for (w, n, k) in common.field_writes(lam, name):
+                    r.instance()
+                    wt = set()
+                    for (c, t) in dominating_facts(lam, w):
+                        wt |= {x["n"] for x in walk(c) if x.get("k") == "member" and x["n"].startswith(SCO + "::")}
+                    r.expect(bool(wt & guard), lam, w, "abandoned waiter completed", "%s is written for a waiter marked as given up" % short(name), okdesc="%s only for a parked waiter" % short(name))
+    # the global onConnect stays suppressed for the abandoned waiter: covered by R3 (every global effect entails op == null)
+
+
 def run(ctx, ck):
     ck.run_rule("C04-R1", "register-before-completion: connect…wait is one syncMutex section containing the registration", "A1 same-section + A2", lambda r: r1(ctx, r))
     ck.run_rule("C04-R2", "engine connect only behind the shutting-down fence", "A5", lambda r: r2(ctx, r))
@@ -380,4 +437,5 @@ def run(ctx, ck):
     ck.run_rule("C04-R5", "success only on done and before close; timeout path closes outside the lock and never succeeds", "A5 ghost atom + A1", lambda r: r5(ctx, r))
     ck.run_rule("C04-R7", "I/O-thread guard precedes the first lock in the synchronous operations", "A2 dominance", lambda r: r7(ctx, r))
     ck.run_rule("C04-R8", "cancellable connect tests the token before every attempt and bounds each sub-wait", "A5 + dataflow", lambda r: r8(ctx, r))
+    ck.run_rule("C04-R10", "the entry of a timed-out waiter survives until the close it caused is reported", "protocol rule: mark under lock on the timeout path, tested before the other eraser", lambda r: r10(ctx, r))
     ck.run_rule("C04-R9", "a successful sub-attempt is returned or closed, never dropped", "A5", lambda r: r9(ctx, r))
